@@ -1,4 +1,5 @@
 """C17 - vnclog records every input event once, in order, regardless of chunking."""
+import io
 import random
 import shlex
 
@@ -289,14 +290,33 @@ def reconnects(camp, rng, n):
         for i in range(n):
             path = os.path.join(tmp, "log%d.vdo" % (i % 4))
             factory = lp.VNCLoggingServerFactory("server.example", 5900)
-            out = open(path, "w")
-            factory.output = out
-            overlapping = rng.random() < 0.5
+            dirmode = i % 3 == 2              # vnclog --forever DIR: one file per viewer, named by the second it connected
+            if dirmode:
+                path = os.path.join(tmp, "dir%d" % i)
+                os.makedirs(path)
+                factory.output = path
+                out = io.StringIO()
+            else:
+                out = open(path, "w")
+                factory.output = out
+            overlapping = rng.random() < 0.5 and not dirmode
             want, why = [], None
             sessions = []
             try:
-                first = Proxy(factory=factory)
-                second = Proxy(factory=factory) if overlapping else None
+                ticker = [0]
+
+                def _stamp(fmt, _t=ticker):
+                    _t[0] += 1
+                    return "s%04d" % _t[0]
+
+                def mk():
+                    p_ = Proxy.__new__(Proxy)
+                    clock = proxyreal.FakeTime()
+                    clock.strftime = _stamp
+                    Proxy.__init__(p_, factory=factory, clock=clock)
+                    return p_
+                first = mk()
+                second = mk() if overlapping else None
                 for h in viewer_handshake(b"003.008"):
                     first.from_viewer(h)
                     if second is not None:
@@ -308,7 +328,7 @@ def reconnects(camp, rng, n):
                 why = why or first.lose()
                 for r in range(rng.randrange(1, 3)):          # viewers that come (back) after the first one left
                     if second is None:
-                        second = Proxy(factory=factory)
+                        second = mk()
                         for h in viewer_handshake(b"003.008"):
                             second.from_viewer(h)
                     for k in range(rng.randrange(1, 4)):
@@ -325,10 +345,14 @@ def reconnects(camp, rng, n):
             camp.evaluations += 1
             camp.count("one-output-file:" + ("overlapping-viewers" if overlapping else "reconnecting-viewer"))
             camp.nontrivial.add(("reconnect", i, overlapping, len(want)))
-            got = [g[2:] for g in parse_script(open(path).read())]
+            if dirmode:
+                text = "".join(open(os.path.join(path, f)).read() for f in sorted(os.listdir(path)))
+            else:
+                text = open(path).read()
+            got = [g[2:] for g in parse_script(text)]
             if why is not None or got != want:
                 camp.oracle_failures.append({"kind": "oracle", "property": "C17", "case": {"pwreq": False, "chunks": [], "reconnect": True},
-                                             "what": f"vnclog FILE with {'two overlapping viewers' if overlapping else 'a viewer that reconnects'}: "
+                                             "what": f"vnclog {'--forever DIR' if dirmode else 'FILE'} with {'two overlapping viewers' if overlapping else 'a viewer that reconnects'}: "
                                                      + (f"the proxy raised {why!r}" if why is not None else
                                                         f"{len(want)} key events were sent over all sessions, the file holds {len(got)} entries ({got[:6]})")})
                 return
